@@ -812,6 +812,8 @@ impl<'a> SortedStaleNodes<'a> {
     /// written into the delta.
     fn into_iter(self) -> impl Iterator<Item = StaleNode<'a>> {
         let mut rng = random_generator();
+        #[cfg(feature = "verif")]
+        let mut rng = crate::verif::shuffle_rng();
         self.stale_nodes
             .into_values()
             .rev()
